@@ -132,9 +132,56 @@ pub fn age_xot(xot: &mut Xot, a: &ANode) -> usize {
     k
 }
 
+/// Arrange the name table so that two attribute names of one element of `a` get ids that differ by exactly `m`
+/// (256 or 65 536): every other name of the tree is registered first, then the first attribute name, then m - 1
+/// junk names, then the second attribute name. Anything keyed by a truncated name id then confuses the two.
+pub fn collide_attr_ids(xot: &mut Xot, a: &ANode, m: usize) -> bool {
+    let mut pair: Option<(crate::adoc::QName, crate::adoc::QName)> = None;
+    let mut names: Vec<crate::adoc::QName> = Vec::new();
+    a.walk(&mut |n| {
+        if n.kind == AKind::Elem || n.kind == AKind::Pi {
+            names.push(n.name.clone());
+        }
+        for (q, _) in &n.attrs {
+            names.push(q.clone());
+        }
+        if pair.is_none() && n.kind == AKind::Elem && n.attrs.len() >= 2 {
+            pair = Some((n.attrs[0].0.clone(), n.attrs[1].0.clone()));
+        }
+    });
+    let (first, second) = match pair {
+        Some(p) => p,
+        None => return false,
+    };
+    let mut reg = |xot: &mut Xot, q: &crate::adoc::QName| {
+        let ns = xot.add_namespace(&q.ns);
+        xot.add_name_ns(&q.local, ns)
+    };
+    for q in names.iter().filter(|q| **q != first && **q != second) {
+        reg(xot, q);
+    }
+    reg(xot, &first);
+    for i in 0..m - 1 {
+        xot.add_name(&format!("zc{}", i));
+    }
+    reg(xot, &second);
+    true
+}
+
+/// one tree in 250: attribute name ids that collide modulo 256 or 65 536
+pub fn maybe_collide(xot: &mut Xot, a: &ANode) -> bool {
+    let h = a.structural_hash();
+    if crate::engine::legs_mode() || h % 250 != 7 {
+        return false;
+    }
+    collide_attr_ids(xot, a, if (h / 250) % 5 != 0 { 256 } else { 65_536 })
+}
+
 /// Build `a` (document, element or leaf) as a new parentless tree.
 pub fn build(xot: &mut Xot, a: &ANode, route: Route, style: AttrStyle) -> Result<HTree, String> {
-    age_xot(xot, a);
+    if !maybe_collide(xot, a) {
+        age_xot(xot, a);
+    }
     build_rec(xot, a, route, style)
 }
 
